@@ -56,10 +56,22 @@ def kept_ops(mi, mo, si):
 
 
 _FRESH = {}
+ACTIVE_POLICY = [None]   # file name of a custom policy loaded (process-globally) by the case being run, or None
 
 
 def reset_fresh():
     _FRESH.clear()
+
+
+def _register_policy(fname):
+    import os
+    from ai_edge_quantizer import algorithm_manager, default_policy, quantizer as qm
+    if fname is None:
+        pol = default_policy.DEFAULT_CONFIG_CHECK_POLICY
+    else:
+        with open(os.path.join(os.path.dirname(qm.__file__), "policies", fname)) as f:
+            pol = default_policy.update_default_config_policy(f.read())
+    algorithm_manager.register_config_check_policy_func(algorithm_manager.AlgorithmName.MIN_MAX_UNIFORM_QUANT, pol)
 
 
 def resolve(q, op_key, scope):
@@ -74,7 +86,16 @@ def resolve(q, op_key, scope):
         if len(_FRESH) > 64:
             _FRESH.clear()
         rm = recipe_manager.RecipeManager()
-        rm.load_quantization_recipe(copy.deepcopy(rec))
+        if ACTIVE_POLICY[0] is not None:
+            # the rules were accepted under the default policy before the custom one was loaded; only resolution happens under the
+            # custom policy (rules for specific operators are not re-validated, '*' rules are re-checked per operator)
+            _register_policy(None)
+            try:
+                rm.load_quantization_recipe(copy.deepcopy(rec))
+            finally:
+                _register_policy(ACTIVE_POLICY[0])
+        else:
+            rm.load_quantization_recipe(copy.deepcopy(rec))
         ent = (key, rm)
         _FRESH[id(q)] = ent
     return ent[1].get_quantization_configs(op_key, scope)
